@@ -16,8 +16,8 @@ func init() {
 	core.Register(&core.Check{
 		ID: "C35", Level: "other", Title: "Side-chain registry changes only through owner request and approval",
 		Technique: "guard dominance + value-flow identity + key-shape agreement",
-		Explain: "side_chain_manager: RegisterSideChain stores the request only when neither a pending request nor a registered chain exists for params.ChainId (both nil-checks dominate putSideChainApply, for that same id) and the stored request's owner is the witnessed params.Address; UpdateSideChain / QuitSideChain store their request only when the chain is registered (GetSideChain != nil) and sideChain.Address == params.Address with params.Address the witnessed address; ApproveRegisterSideChain / ApproveUpdateSideChain pass to PutSideChain exactly the object returned by the request getter for params.Chainid (the registered record equals the approved request) and only after the getter returned non-nil and CheckConsensusSigns returned true; ApproveQuitSideChain deletes the SIDE_CHAIN record of the same id only after getQuitSideChain succeeded for that id and consensus approved, and the request getter/putter/approval-delete of each of the three request kinds use one key shape (so an approval consumes the request the owner made — a stale request cannot remove a re-registered chain). WC: PutSideChain is called only from the two approvals. NOT decided: the history statement over arbitrary sequences.",
-		Run: runC35,
+		Explain:   "side_chain_manager: RegisterSideChain stores the request only when neither a pending request nor a registered chain exists for params.ChainId (both nil-checks dominate putSideChainApply, for that same id) and the stored request's owner is the witnessed params.Address; UpdateSideChain / QuitSideChain store their request only when the chain is registered (GetSideChain != nil) and sideChain.Address == params.Address with params.Address the witnessed address; ApproveRegisterSideChain / ApproveUpdateSideChain pass to PutSideChain exactly the object returned by the request getter for params.Chainid (the registered record equals the approved request) and only after the getter returned non-nil and CheckConsensusSigns returned true; ApproveQuitSideChain deletes the SIDE_CHAIN record of the same id only after getQuitSideChain succeeded for that id and consensus approved, and the request getter/putter/approval-delete of each of the three request kinds use one key shape (so an approval consumes the request the owner made — a stale request cannot remove a re-registered chain). WC: PutSideChain is called only from the two approvals. NOT decided: the history statement over arbitrary sequences.",
+		Run:       runC35,
 	})
 }
 
@@ -220,11 +220,17 @@ func runC35(c *core.Ctx) {
 		c.Decide(delOK, "C35.request-key", a, k.kind+" request: the approval deletes that same key", c.P.Rel(a.Pos()), sprintf("request key %s, approval deletes %v", gShape, dels))
 	}
 	// who may register
-	cg := c.P.CG()
 	if f := c.Fn(pkSCM, "PutSideChain"); f != nil {
 		okW := true
 		var names []string
-		for _, caller := range cg.Callers(f) {
+		for _, caller := range c.P.EffectiveCallers(f, func(y *ssa.Function) bool {
+			switch ir.FuncName(y) {
+			case "native/service/governance/side_chain_manager.ApproveRegisterSideChain", "native/service/governance/side_chain_manager.ApproveUpdateSideChain",
+				"native/service/governance/side_chain_manager.PutRippleExtraInfo":
+				return true
+			}
+			return false
+		}) {
 			n := ir.FuncName(caller)
 			names = append(names, n)
 			switch n {
